@@ -101,8 +101,48 @@ func checkC07(rc *RunCtx) *Report {
 		replayE1(rc, rep, scs)
 		return rep
 	}
-	nums, extra := runSharded(rc, rep, len(scs), func(sh Shard, rep *Report) *ShardResult {
+	// work-set scenarios: after a restart only the tokens the real watchers replay exist
+	a := func(leaf, v string) SetReqOrCall { return setReq("T1."+leaf+"="+v, upd("T1", "/cont/"+leaf, v)) }
+	wsScs := []*Scenario{
+		{Name: "W1 one Set on T1, offline, one crash (work-set model: only replayed tokens survive)", Cfg: WorldConfig{Targets: []string{"T1"}},
+			Requests: []SetReqOrCall{a("leafA", "1")}, CrashBudget: 1},
+	}
+	if rc.Thorough() {
+		wsScs = append(wsScs, &Scenario{Name: "W2 one Set on T1, connected, one crash (work-set model)", Cfg: WorldConfig{Targets: []string{"T1"}}, Init: connectAll("T1"),
+			Requests: []SetReqOrCall{a("leafA", "1")}, CrashBudget: 1})
+	}
+	nums, extra := runSharded(rc, rep, len(scs)+len(wsScs), func(sh Shard, rep *Report) *ShardResult {
 		out := newShardResult()
+		for j, sc := range wsScs {
+			if !sh.Mine(len(scs)+j) || (os.Getenv("VERIF_ONLY") != "" && !strings.Contains(sc.Name, os.Getenv("VERIF_ONLY"))) {
+				continue
+			}
+			sc := sc
+			sc.Mode = QWorkSet
+			sc.MaxStates = 500000
+			x := &Explorer{RC: rc, Rep: rep, Sc: sc}
+			cands := newCandidates(true)
+			probes := 0
+			x.Hooks.OnState = func(x *Explorer, s *E1State) { c09IdleOracle(x, s, sc, cands, &probes) }
+			x.Run()
+			// classes of this part are prefixed so that they are told apart from C09's
+			for i := range cands.pending {
+				cands.pending[i].class = "after-restart/" + cands.pending[i].class
+			}
+			cands.resolve(x, rep, sc)
+			out.Numbers["states"] += int64(x.States)
+			out.Numbers["transitions"] += int64(x.Transitions)
+			out.Numbers["idle_states"] += int64(x.IdleStates)
+			out.Numbers["candidates"] += int64(cands.total)
+			out.Numbers["unconfirmed_candidates"] += int64(cands.unconfirmed)
+			if x.Capped {
+				rep.Exhaustive = false
+			}
+			if len(cands.notes) > 0 {
+				out.Extra["unconfirmed: "+sc.Name] = cands.notes
+			}
+			out.Extra[sc.Name] = map[string]interface{}{"states": x.States, "transitions": x.Transitions, "idle_states": x.IdleStates, "capped": x.Capped}
+		}
 		for i, sc := range scs {
 			if !sh.Mine(i) || (os.Getenv("VERIF_ONLY") != "" && !strings.Contains(sc.Name, os.Getenv("VERIF_ONLY"))) {
 				continue
